@@ -601,6 +601,8 @@ def parse_equation(equation: str) -> List[Symbol]:
     terms = parse_equation_terms(equation)
 
     # Construct standardised and code representations of the equation
+    # (marking the terms with a placeholder character at first, to be able to
+    # escape any other, literal braces ahead of the calls to `str.format()`)
     template = equation
     for match in reversed(list(term_re.finditer(equation))):
         # Skip Python keywords, which yield unnamed groups
@@ -608,7 +610,15 @@ def parse_equation(equation: str) -> List[Symbol]:
             continue
 
         start, end = match.span()
-        template = f'{template[:start]}{{}}{template[end:]}'
+        template = f'{template[:start]}\x00{template[end:]}'
+
+    # The terms come from parsing either side of the first equals sign: check
+    # that they line up with the terms found in the equation as a whole (they
+    # may not if, say, a backticked expression straddles the equals sign)
+    if template.count('\x00') != len(terms):
+        raise ParserError(f"Failed to identify the terms of equation: '{equation}'")
+
+    template = template.replace('{', '{{').replace('}', '}}').replace('\x00', '{}')
 
     # fmt: off
     template = re.sub(r'\s+',   ' ', template)  # Remove repeated whitespace
